@@ -77,19 +77,34 @@ Section Lift.
   Qed.
 
   (* the directories of a recursive install, internal mode *)
-  Lemma fold_dirs_src dm under : forall (l : list str) a r w',
-    (forall ws, dm <> IFallback ws) ->
-    fold_left (fun acc d => then_ acc (install_dirs ed ext_effect [under d] dm)) l a = (r, w') ->
+  Lemma install_tree_src dest im dm d w r w' :
+    (forall ws, im <> IFallback ws) -> (forall ws, dm <> IFallback ws) ->
+    install_tree ed ext_effect dest im dm d w = (r, w') ->
+    w_src w' = w_src w /\ w_faults w' = w_faults w.
+  Proof.
+    intros Him Hdm. unfold install_tree.
+    destruct (install_dirs ed ext_effect [pjoin dest d] dm w) as [r1 w1] eqn:E.
+    assert (Hi : install_dirs_int ed [pjoin dest d] dm w = (r1, w1)).
+    { destruct dm; cbn [install_dirs] in E; try exact E. exfalso. eapply Hdm. reflexivity. }
+    apply install_dirs_int_src in Hi. destruct Hi as [Hi1 Hi2].
+    destruct r1 as [e|]; cbn [then_]; [intro H; inversion H; subst; auto|].
+    destruct (kids_of w1 d) as [|k ks]; [intro H; inversion H; subst; auto|].
+    intro H.
+    assert (Hint : install_int ed (map (fun f => (pjoin d f, pjoin (pjoin dest d) f)) (k :: ks)) im w1 = (r, w')).
+    { destruct im; cbn [install_files] in H; try exact H. exfalso. eapply Him. reflexivity. }
+    apply install_int_src in Hint. destruct Hint as [-> ->]. auto.
+  Qed.
+  Lemma fold_dirs_src dest im dm : forall (l : list str) a r w',
+    (forall ws, im <> IFallback ws) -> (forall ws, dm <> IFallback ws) ->
+    fold_left (fun acc d => then_ acc (install_tree ed ext_effect dest im dm d)) l a = (r, w') ->
     w_src w' = w_src (snd a) /\ w_faults w' = w_faults (snd a).
   Proof.
-    intros l a r w' Hdm. revert a. induction l as [|x l IH]; intros a; cbn [fold_left].
+    intros l a r w' Him Hdm. revert a. induction l as [|x l IH]; intros a; cbn [fold_left].
     - intros ->. auto.
     - intro H. apply IH in H. destruct a as [[e|] wa]; cbn [then_ snd] in *; [exact H|].
-      destruct (install_dirs ed ext_effect [under x] dm wa) as [r1 w1] eqn:E.
+      destruct (install_tree ed ext_effect dest im dm x wa) as [r1 w1] eqn:E.
       cbn [snd] in H.
-      assert (Hi : install_dirs_int ed [under x] dm wa = (r1, w1)).
-      { destruct dm; cbn [install_dirs] in E; try exact E. exfalso. eapply Hdm. reflexivity. }
-      apply install_dirs_int_src in Hi. destruct Hi as [Hi1 Hi2]. rewrite Hi1, Hi2 in H. exact H.
+      destruct (install_tree_src _ _ _ _ _ _ _ Him Hdm E) as [Hi1 Hi2]. rewrite Hi1, Hi2 in H. exact H.
   Qed.
 
   (* a step never ends with "Some <normal result>": only None (go on) or an IpcCommandError *)
@@ -111,7 +126,7 @@ Section Lift.
   Lemma install_int_err fs im : forall w, errlike (fst (install_int ed fs im w)).
   Proof.
     induction fs as [|[s d] r IH]; intro w; cbn [install_int]; [exact I|].
-    destruct (fault_of K_STAT s (w_faults w)); [exact I|].
+    destruct (fault_of K_STAT (basename s) (w_faults w)); [exact I|].
     destruct (assoc s (w_src w)) as [k|]; [|exact I].
     destruct (match fault_of K_UNLINK (basename d) (w_faults w) with
               | Some e => Some e
@@ -119,7 +134,7 @@ Section Lift.
               end); [exact I|].
     destruct (match fault_of K_COPY (basename d) (w_faults w) with
               | Some e => inr e
-              | None => match k with SFile cid => inl cid | SDir => inr 21 end
+              | None => match k with SFile cid => inl cid | SDir _ => inr 21 end
               end) as [cid|e]; [|exact I].
     destruct im; try apply IH.
     destruct (fault_of K_CHMOD (basename d) (w_faults w)); [exact I|apply IH].
@@ -133,12 +148,17 @@ Section Lift.
   Proof. destruct im; cbn [install_files]; try apply install_int_err. apply install_ext_groups_err. Qed.
   Lemma then_err a k : errlike (fst a) -> (forall w, errlike (fst (k w))) -> errlike (fst (then_ a k)).
   Proof. destruct a as [[e|] w]; cbn; auto. Qed.
-  Lemma fold_dirs_err dm under : forall (l : list str) a,
+  Lemma install_tree_err dest im dm d w : errlike (fst (install_tree ed ext_effect dest im dm d w)).
+  Proof.
+    unfold install_tree. apply then_err; [apply install_dirs_err|].
+    intro w1. destruct (kids_of w1 d); [exact I|apply install_files_err].
+  Qed.
+  Lemma fold_dirs_err dest im dm : forall (l : list str) a,
     errlike (fst a) ->
-    errlike (fst (fold_left (fun acc d => then_ acc (install_dirs ed ext_effect [under d] dm)) l a)).
+    errlike (fst (fold_left (fun acc d => then_ acc (install_tree ed ext_effect dest im dm d)) l a)).
   Proof.
     induction l as [|x l IH]; intros a Ha; cbn [fold_left]; [assumption|].
-    apply IH. apply then_err; [assumption|intro; apply install_dirs_err].
+    apply IH. apply then_err; [assumption|intro; apply install_tree_err].
   Qed.
 
   (* TRUTHFUL ON DISK, internal copy path: when a request to doins/doexe/dodoc/doinfo/dolib* is
@@ -172,11 +192,11 @@ Section Lift.
       set (dirs := if has_r then filter (is_dir_src w1) targets else []).
       set (files := if has_r then filter (fun t => negb (is_dir_src w1 t)) targets else targets).
       destruct (if recursive
-                then fold_left (fun acc d => then_ acc (install_dirs ed ext_effect [pjoin dest d] dm)) dirs (None, w1)
+                then fold_left (fun acc d => then_ acc (install_tree ed ext_effect dest im dm d)) dirs (None, w1)
                 else (None, w1)) as [r2 w2] eqn:Ed.
       assert (Hs2 : w_src w2 = w_src w).
       { destruct recursive.
-        - apply (fold_dirs_src dm (pjoin dest)) in Ed; [|assumption]. cbn in Ed. destruct Ed as [-> _]. exact Hs1.
+        - apply (fold_dirs_src dest im dm) in Ed; [|assumption|assumption]. cbn in Ed. destruct Ed as [-> _]. exact Hs1.
         - injection Ed as _ <-. exact Hs1. }
       assert (He2 : errlike r2).
       { change r2 with (fst (r2, w2)). rewrite <- Ed. destruct recursive; [|exact I].
